@@ -1835,7 +1835,7 @@ impl<'a, E: quiver_core::effects::Effect> Compiler<'a, E> {
             // so tuple field provenance is preserved. For complex patterns (destructuring),
             // use Unknown since path resolution is complex.
             let var_provenance = if bindings.len() == 1 {
-                value_provenance.clone()
+                value_provenance.for_binding()
             } else {
                 Provenance::Unknown
             };
